@@ -68,9 +68,10 @@ func H_C15_keys(t *verifrt.T) {
 	doc := append([]byte(`{"`), key...)
 	if t.Param("TRUNC") == 1 {
 		// the input ends inside the key: only safety is at stake (C06)
+		// (no verdict is asserted: free key bytes can themselves complete the document)
 		var v vkB
 		err := Unmarshal(doc, &v)
-		t.Assert("truncated-document-rejected", err != nil)
+		t.ObserveBool("rejected", err != nil)
 		return
 	}
 	doc = append(doc, `":7}`...)
